@@ -33,3 +33,19 @@ contract(f"{R}::RouteTable.find_best_route",
                              " and forall(j, 0, _i, implies(covers(self.routes[j], destination_ip), at_least_as_good(best_route, self.routes[j]))))"),
              ("dest_is_ip", "isinstance(destination_ip, IPv4Address)"),
          ]}})
+
+# ---- the table keeps every route it is given (primary and backup routes to one prefix stay side by side) ------------------------------
+contract(f"{R}::RouteTable.add_route", props=["C08", "C20"], types={"address": "IPv4Address", "subnet_mask": "IPv4Address", "next_hop_ip_address": "IPv4Address"},
+         ensures=[("appended", "len(self.routes) == old(len(self.routes)) + 1 and fresh(self.routes[len(self.routes) - 1])"
+                               " and self.routes[len(self.routes) - 1].address == address and self.routes[len(self.routes) - 1].subnet_mask == subnet_mask"
+                               " and self.routes[len(self.routes) - 1].next_hop_ip_address == next_hop_ip_address and self.routes[len(self.routes) - 1].metric == metric"),
+                  ("earlier_routes_kept", "forall(k, 0, old(len(self.routes)), self.routes[k] is old(self.routes[k]))")],
+         modifies=["self.routes[*]"], allocates=True, loops={0: {"inv": [], "modifies": []}})
+
+# ---- address resolution on a router ends: each retry moves one step down  (first attempt -> re-attempt -> default-route attempt) -----------
+# termination view: the measure talks about the two flags only, so every other callee is abstracted to "any effect, any result"
+MEASURE = "2 if not is_reattempt else (1 if not is_default_route_attempt else 0)"
+for fn in ("_get_arp_cache_mac_address", "_get_arp_cache_network_interface"):
+    contract(f"{R}::RouterARP.{fn}", props=["C08"], decreases=MEASURE, abstract_callees=True,
+             ensures=[], modifies=["heap"], allocates=True,
+             loops=({0: {"inv": [], "modifies": ["heap"]}} if fn.endswith("interface") else {}))
